@@ -253,7 +253,7 @@ class Monitor(object):
             return
         o = sim.nodes[nid]
         # C11 / C12: nothing escapes the tick or the message handler
-        if sim.exc and k in ('tick', 'deliver'):
+        if sim.exc and k in ('tick', 'deliver') and not str(getattr(sim, 'exc_repr', '')).startswith('CallbackRefused'):
             empty = len(g(o, 'raftLog')) == 0
             if empty and self.kills:
                 # a voter lost its memory earlier (C01-C04 are stated without that): committed entries were cut, the
